@@ -26,14 +26,48 @@ def np (l : List Bytes) : Nat := (l.filter isNPF).length
 theorem np_cons (a : Bytes) (b : List Bytes) : np (a :: b) = (if isNPF a then 1 else 0) + np b := by
   simp only [np, List.filter_cons]; split <;> simp <;> omega
 
-theorem success_ne_disc : msgSuccess ≠ msgDiscNoMoreAuth := by
-  simp [msgSuccess, msgDiscNoMoreAuth, msgDisconnect]
-theorem failure_ne_disc (a : Bytes) (p : Bool) : msgFailure a p ≠ msgDiscNoMoreAuth := by
-  simp [msgFailure, msgDiscNoMoreAuth, msgDisconnect]
-theorem failure_ne_success (a : Bytes) (p : Bool) : msgFailure a p ≠ msgSuccess := by
-  simp [msgFailure, msgSuccess]
-theorem disc_ne_success (c : Nat) (d : Bytes) : msgDisconnect c d ≠ msgSuccess := by
-  simp [msgDisconnect, msgSuccess]
+theorem ne_of_head {a b : UInt8} {x y : Bytes} (h : a ≠ b) : a :: x ≠ b :: y := by
+  intro e; exact h (List.cons.inj e).1
+
+theorem success_ne_disc : msgSuccess ≠ msgDiscNoMoreAuth := ne_of_head (by decide)
+theorem failure_ne_disc (a : Bytes) (p : Bool) : msgFailure a p ≠ msgDiscNoMoreAuth := ne_of_head (by decide)
+theorem failure_ne_success (a : Bytes) (p : Bool) : msgFailure a p ≠ msgSuccess := ne_of_head (by decide)
+theorem disc_ne_success (c : Nat) (d : Bytes) : msgDisconnect c d ≠ msgSuccess := ne_of_head (by decide)
+
+/-! `msgSuccess` / `msgDiscNoMoreAuth` differ from every other message the server builds (first byte) -/
+@[simp] theorem success_ne_pkok (a b : Bytes) : msgSuccess ≠ msgPkOk a b := ne_of_head (by decide)
+@[simp] theorem success_ne_inforeq (q : IQuery) : msgSuccess ≠ msgInfoRequest q := ne_of_head (by decide)
+@[simp] theorem success_ne_gssresp (o : Bytes) : msgSuccess ≠ msgGssResponse o := ne_of_head (by decide)
+@[simp] theorem success_ne_gsstok (o : Bytes) : msgSuccess ≠ msgGssToken o := ne_of_head (by decide)
+@[simp] theorem success_ne_accept (o : Bytes) : msgSuccess ≠ msgServiceAccept o := ne_of_head (by decide)
+@[simp] theorem success_ne_banner (a b : Bytes) : msgSuccess ≠ msgBanner a b := ne_of_head (by decide)
+@[simp] theorem success_ne_reqfail : msgSuccess ≠ msgRequestFailure := ne_of_head (by decide)
+@[simp] theorem success_ne_openfail (n : Nat) : msgSuccess ≠ msgOpenFailure n := ne_of_head (by decide)
+@[simp] theorem success_ne_unimpl (n : Nat) : msgSuccess ≠ msgUnimplemented n := ne_of_head (by decide)
+@[simp] theorem success_ne_disconnect (c : Nat) (d : Bytes) : msgSuccess ≠ msgDisconnect c d := ne_of_head (by decide)
+@[simp] theorem success_ne_discA : msgSuccess ≠ msgDiscNoMoreAuth := ne_of_head (by decide)
+@[simp] theorem success_ne_discS : msgSuccess ≠ msgDiscService := ne_of_head (by decide)
+@[simp] theorem discS_ne_success : msgDiscService ≠ msgSuccess := ne_of_head (by decide)
+@[simp] theorem discA_ne_success : msgDiscNoMoreAuth ≠ msgSuccess := ne_of_head (by decide)
+@[simp] theorem discA_ne_pkok (a b : Bytes) : msgDiscNoMoreAuth ≠ msgPkOk a b := ne_of_head (by decide)
+@[simp] theorem discA_ne_inforeq (q : IQuery) : msgDiscNoMoreAuth ≠ msgInfoRequest q := ne_of_head (by decide)
+@[simp] theorem discA_ne_gssresp (o : Bytes) : msgDiscNoMoreAuth ≠ msgGssResponse o := ne_of_head (by decide)
+@[simp] theorem discA_ne_gsstok (o : Bytes) : msgDiscNoMoreAuth ≠ msgGssToken o := ne_of_head (by decide)
+@[simp] theorem discA_ne_accept (o : Bytes) : msgDiscNoMoreAuth ≠ msgServiceAccept o := ne_of_head (by decide)
+@[simp] theorem discA_ne_banner (a b : Bytes) : msgDiscNoMoreAuth ≠ msgBanner a b := ne_of_head (by decide)
+@[simp] theorem discA_ne_reqfail : msgDiscNoMoreAuth ≠ msgRequestFailure := ne_of_head (by decide)
+@[simp] theorem discA_ne_openfail (n : Nat) : msgDiscNoMoreAuth ≠ msgOpenFailure n := ne_of_head (by decide)
+@[simp] theorem discA_ne_unimpl (n : Nat) : msgDiscNoMoreAuth ≠ msgUnimplemented n := ne_of_head (by decide)
+
+@[simp] theorem isNPF_pkok (a b : Bytes) : isNPF (msgPkOk a b) = false := by simp [isNPF, msgPkOk]
+@[simp] theorem isNPF_inforeq (q : IQuery) : isNPF (msgInfoRequest q) = false := by simp [isNPF, msgInfoRequest]
+@[simp] theorem isNPF_gssresp (o : Bytes) : isNPF (msgGssResponse o) = false := by simp [isNPF, msgGssResponse]
+@[simp] theorem isNPF_gsstok (o : Bytes) : isNPF (msgGssToken o) = false := by simp [isNPF, msgGssToken]
+@[simp] theorem isNPF_accept (o : Bytes) : isNPF (msgServiceAccept o) = false := by simp [isNPF, msgServiceAccept]
+@[simp] theorem isNPF_banner (a b : Bytes) : isNPF (msgBanner a b) = false := by simp [isNPF, msgBanner]
+@[simp] theorem isNPF_reqfail : isNPF msgRequestFailure = false := by decide
+@[simp] theorem isNPF_openfail (n : Nat) : isNPF (msgOpenFailure n) = false := by simp [isNPF, msgOpenFailure]
+@[simp] theorem isNPF_unimpl (n : Nat) : isNPF (msgUnimplemented n) = false := by simp [isNPF, msgUnimplemented]
 
 /-- the username a credential-evaluating callback is asked about -/
 def userOf : Cb → Option Bytes
@@ -115,8 +149,7 @@ theorem sar_authenticated : (sendAuthResult s e u r).1.authenticated =
 
 theorem sar_success : msgSuccess ∈ (sendAuthResult s e u r).2.sent ↔ r = AUTH_SUCCESSFUL := by
   unfold sendAuthResult; repeat' split
-  all_goals simp_all [failure_ne_success, success_ne_disc, Ne.symm success_ne_disc,
-    (disc_ne_success _ _).symm, msgDiscNoMoreAuth, (failure_ne_success _ _).symm]
+  all_goals simp_all [(failure_ne_success _ _).symm]
 end sar
 
 /-! ## `perform` -/
@@ -225,6 +258,7 @@ theorem perform_cap (h : a.plainOK) (hlt : s.failCount < FAIL_CAP) :
       have h4 := sar_np_le (sendAuthResult s e u AUTH_FAILED).1 e u AUTH_FAILED
       rw [h3] at hact
       simp [FAIL_CAP] at hact
+      have hb := of_decide_eq_true hact.2
       simp; omega
     · simp; omega
   | delegate c => simp [perform]; omega
@@ -260,7 +294,7 @@ theorem perform_inv (h : s.active = true → s.failCount < FAIL_CAP) :
     simp only [perform]; intro ha; simp at ha; exact h ha.1
 
 /-- the step in which the counter reaches ten sends DISCONNECT and leaves the transport inactive -/
-theorem perform_cross (hlt : s.failCount < FAIL_CAP) (hge : FAIL_CAP ≤ (perform s e a).1.failCount) :
+theorem perform_cross (hs : s.active = true) (hlt : s.failCount < FAIL_CAP) (hge : FAIL_CAP ≤ (perform s e a).1.failCount) :
     (perform s e a).1.active = false ∧ msgDiscNoMoreAuth ∈ (perform s e a).2.sent := by
   cases a with
   | nop => simp [perform] at hge; omega
@@ -273,34 +307,24 @@ theorem perform_cross (hlt : s.failCount < FAIL_CAP) (hge : FAIL_CAP ≤ (perfor
     rw [sar_active]; simp; intro _; omega
   | resultDie cb u r x =>
     simp only [perform] at hge ⊢
-    exact ⟨rfl, by simpa [Out.pre] using sar_disc s e u r hge⟩
+    exact ⟨trivial, by simpa [Out.pre] using sar_disc s e u r hge⟩
   | rejectTwice cb u =>
     simp only [perform] at hge ⊢
-    split at hge
-    · rename_i hact
-      rw [if_pos hact]
+    have h3 := sar_active s e u AUTH_FAILED
+    have h5 := sar_count_eq s e u AUTH_FAILED
+    simp [AUTH_FAILED, AUTH_SUCCESSFUL, AUTH_PARTIALLY_SUCCESSFUL] at h5
+    by_cases hact : (sendAuthResult s e u AUTH_FAILED).1.active = true
+    · rw [if_pos hact] at hge ⊢
       refine ⟨rfl, ?_⟩
       simp only [List.mem_append]
       exact Or.inr (sar_disc _ e u AUTH_FAILED hge)
-    · rename_i hact
-      rw [if_neg hact]
+    · rw [if_neg hact] at hge ⊢
       simp only [Bool.not_eq_true] at hact
       refine ⟨hact, ?_⟩
-      have h3 := sar_active s e u AUTH_FAILED
-      have h5 := sar_count_eq s e u AUTH_FAILED
-      simp [AUTH_FAILED, AUTH_SUCCESSFUL, AUTH_PARTIALLY_SUCCESSFUL] at h5
       apply sar_disc
-      simp only [AUTH_FAILED] at hge ⊢
-      unfold FAIL_CAP at *
-      by_cases h10 : 10 ≤ (sendAuthResult s e u 2).1.failCount
-      · exact h10
-      · exfalso
-        simp only [AUTH_FAILED] at hact h3
-        rw [h3] at hact
-        simp [FAIL_CAP] at hact
-        -- inactive after the first rejection although the counter is below the cap: only if `s` was inactive,
-        -- and then the second branch adds one to nine at most
-        omega
+      rw [h3, hs] at hact
+      simp only [Bool.true_and, decide_eq_false_iff_not] at hact
+      omega
   | delegate c => simp [perform] at hge; omega
 
 theorem perform_chans_unauth (h : ∀ c, a ≠ .delegate c) : (perform s e a).1.chans = s.chans := by
@@ -308,5 +332,214 @@ theorem perform_chans_unauth (h : ∀ c, a ≠ .delegate c) : (perform s e a).1.
   · split <;> simp [sar_chans]
   · exact absurd rfl (h _)
 end perform
+
+
+/-! ## the decision functions -/
+
+/-- what every decision function guarantees about the state it returns and the act it chooses:
+counters, activity, authentication flag and channels are untouched; a pinned username stays; every
+credential callback it names asks about the pinned username; plain messages are harmless -/
+def DecOK (s s1 : St) (a : Act) : Prop :=
+  s1.failCount = s.failCount ∧ s1.active = s.active ∧ s1.authenticated = s.authenticated ∧ s1.chans = s.chans ∧
+  (∀ u, s.authUser = some u → s1.authUser = some u) ∧
+  (∀ c ∈ a.cbs, ∀ u, userOf c.cb = some u → s1.authUser = some u) ∧
+  a.plainOK
+
+theorem DecOK_congr {s s' s1 : St} {a : Act} (h : DecOK s' s1 a)
+    (h1 : s'.failCount = s.failCount) (h2 : s'.active = s.active) (h3 : s'.authenticated = s.authenticated)
+    (h4 : s'.chans = s.chans) (h5 : s'.authUser = s.authUser) : DecOK s s1 a := by
+  unfold DecOK at *
+  rw [h1, h2, h3, h4, h5] at h
+  exact h
+
+theorem parseServiceRequest_ok (s : St) (b : Bytes) (e : Env) (s1 : St) (a : Act)
+    (h : parseServiceRequest s b e = (s1, a)) : DecOK s s1 a := by
+  unfold parseServiceRequest at h
+  repeat' (split at h)
+  all_goals (obtain ⟨rfl, rfl⟩ := Prod.mk.inj h; simp [DecOK, Act.cbs, Act.plainOK, userOf, np_cons])
+
+theorem authMethod_ok (sc : SigScheme) (sid : Bytes) (s : St) (e : Env) (u sv m : Bytes) (r : Rd)
+    (hu : s.authUser = some u) (s1 : St) (a : Act) (h : authMethod sc sid s e u sv m r = (s1, a)) :
+    DecOK s s1 a := by
+  unfold authMethod interAct at h
+  repeat' (split at h)
+  all_goals (obtain ⟨rfl, rfl⟩ := Prod.mk.inj h; simp [DecOK, Act.cbs, Act.plainOK, userOf, cGss, np_cons, hu])
+
+theorem pin_lemma (s : St) (user : Bytes) (hpin : ¬(s.authUser ≠ none ∧ s.authUser ≠ some user))
+    (u : Bytes) (hu : s.authUser = some u) : u = user := by
+  rw [hu] at hpin
+  simp at hpin
+  exact hpin
+
+theorem parseUserauthRequest_ok (sc : SigScheme) (sid : Bytes) (s : St) (b : Bytes) (e : Env) (s1 : St) (a : Act)
+    (h : parseUserauthRequest sc sid s b e = (s1, a)) : DecOK s s1 a := by
+  unfold parseUserauthRequest at h
+  split at h
+  · obtain ⟨rfl, rfl⟩ := Prod.mk.inj h; simp [DecOK, Act.cbs, Act.plainOK]
+  split at h
+  · obtain ⟨rfl, rfl⟩ := Prod.mk.inj h; simp [DecOK, Act.cbs, Act.plainOK]
+  split at h
+  · obtain ⟨rfl, rfl⟩ := Prod.mk.inj h; simp [DecOK, Act.cbs, Act.plainOK]
+  split at h
+  · obtain ⟨rfl, rfl⟩ := Prod.mk.inj h; simp [DecOK, Act.cbs, Act.plainOK]
+  split at h
+  · obtain ⟨rfl, rfl⟩ := Prod.mk.inj h; simp [DecOK, Act.cbs, Act.plainOK]
+  split at h
+  · obtain ⟨rfl, rfl⟩ := Prod.mk.inj h; simp [DecOK, Act.cbs, Act.plainOK]
+  · have hin := authMethod_ok sc sid _ e _ _ _ _ rfl s1 a h
+    unfold DecOK at hin ⊢
+    simp only at hin
+    refine ⟨hin.1, hin.2.1, hin.2.2.1, hin.2.2.2.1, ?_, hin.2.2.2.2.2.1, hin.2.2.2.2.2.2⟩
+    intro u hu
+    have hx := pin_lemma s _ (by assumption) u hu
+    subst hx
+    exact hin.2.2.2.2.1 u rfl
+
+theorem parseInfoResponse_ok (s : St) (b : Bytes) (e : Env) (s1 : St) (a : Act)
+    (h : parseInfoResponse s b e = (s1, a)) : DecOK s s1 a := by
+  unfold parseInfoResponse interAct at h
+  repeat' (split at h)
+  all_goals (obtain ⟨rfl, rfl⟩ := Prod.mk.inj h; simp [DecOK, Act.cbs, Act.plainOK, userOf, np_cons])
+
+theorem gssToken_ok (s : St) (e : Env) (s1 : St) (a : Act) (h : gssToken s e = (s1, a)) : DecOK s s1 a := by
+  unfold gssToken at h
+  repeat' (split at h)
+  all_goals (obtain ⟨rfl, rfl⟩ := Prod.mk.inj h; simp [DecOK, Act.cbs, Act.plainOK, userOf, np_cons])
+
+theorem gssMic_ok (s : St) (e : Env) (s1 : St) (a : Act) (h : gssMic s e = (s1, a)) : DecOK s s1 a := by
+  unfold gssMic at h
+  repeat' (split at h)
+  all_goals (obtain ⟨rfl, rfl⟩ := Prod.mk.inj h; simp [DecOK, Act.cbs, Act.plainOK, userOf, np_cons])
+
+theorem ensureAuthedReply_plain (p : Nat) (b : Bytes) :
+    (ensureAuthedReply p b).cbs = [] ∧ (ensureAuthedReply p b).plainOK := by
+  unfold ensureAuthedReply
+  repeat' split
+  all_goals simp [Act.cbs, Act.plainOK, np_cons]
+
+theorem authDispatch_ok (sc : SigScheme) (sid : Bytes) (s : St) (p : Nat) (b : Bytes) (e : Env) (s1 : St) (a : Act)
+    (h : authDispatch sc sid s p b e = (s1, a)) : DecOK s s1 a := by
+  unfold authDispatch at h
+  repeat' (split at h)
+  · obtain ⟨rfl, rfl⟩ := Prod.mk.inj h; simp [DecOK, Act.cbs, Act.plainOK]
+  · exact DecOK_congr (parseServiceRequest_ok _ b e s1 a h) rfl rfl rfl rfl rfl
+  · exact DecOK_congr (parseUserauthRequest_ok sc sid _ b e s1 a h) rfl rfl rfl rfl rfl
+  · exact gssToken_ok s e s1 a h
+  · exact gssMic_ok s e s1 a h
+  · exact parseServiceRequest_ok s b e s1 a h
+  · exact parseUserauthRequest_ok sc sid s b e s1 a h
+  · exact parseInfoResponse_ok s b e s1 a h
+
+theorem dispatch_ok (sc : SigScheme) (sid : Bytes) (s : St) (p : Nat) (b : Bytes) (e : Env) (s1 : St) (a : Act)
+    (h : dispatch sc sid s p b e = (s1, a)) : DecOK s s1 a := by
+  unfold dispatch at h
+  split at h
+  · repeat' (split at h)
+    all_goals (obtain ⟨rfl, rfl⟩ := Prod.mk.inj h)
+    · simp [DecOK, Act.cbs, Act.plainOK]
+    · simp [DecOK, Act.cbs, Act.plainOK]
+    · simp [DecOK, Act.cbs, Act.plainOK]
+    · have := ensureAuthedReply_plain p b
+      simp [DecOK, this.1, this.2]
+  · repeat' (split at h)
+    all_goals (obtain ⟨rfl, rfl⟩ := Prod.mk.inj h; simp [DecOK, Act.cbs, Act.plainOK])
+  · exact authDispatch_ok sc sid s p b e s1 a h
+  · repeat' (split at h)
+    all_goals (obtain ⟨rfl, rfl⟩ := Prod.mk.inj h; simp [DecOK, Act.cbs, Act.plainOK, np_cons])
+
+theorem decideAct_ok (sc : SigScheme) (sid : Bytes) (s : St) (p : Nat) (b : Bytes) (e : Env) (s1 : St) (a : Act)
+    (h : decideAct sc sid s p b e = (s1, a)) : DecOK s s1 a := by
+  unfold decideAct at h
+  split at h
+  · obtain ⟨rfl, rfl⟩ := Prod.mk.inj h; simp [DecOK, Act.cbs, Act.plainOK]
+  · split at h
+    all_goals (obtain ⟨rfl, rfl⟩ := Prod.mk.inj h; simp [DecOK, Act.cbs, Act.plainOK])
+  · obtain ⟨rfl, rfl⟩ := Prod.mk.inj h; simp [DecOK, Act.cbs, Act.plainOK]
+  · split at h
+    · split at h
+      · obtain ⟨rfl, rfl⟩ := Prod.mk.inj h; simp [DecOK, Act.cbs, Act.plainOK]
+      · split at h
+        · obtain ⟨rfl, rfl⟩ := Prod.mk.inj h; simp [DecOK, Act.cbs, Act.plainOK]
+        · exact DecOK_congr (dispatch_ok sc sid _ p b e s1 a h) rfl rfl rfl rfl rfl
+    · exact dispatch_ok sc sid s p b e s1 a h
+
+/-! ## one step of the loop -/
+
+section step
+variable (sc : SigScheme) (sid : Bytes) (s : St) (p : Nat) (b : Bytes) (e : Env)
+
+/-- once the loop has ended nothing is consulted, sent or changed -/
+theorem step_inactive (h : s.active = false) : step sc sid s p b e = (s, {}) := by
+  simp [step, h]
+
+theorem step_active (h : s.active = true) :
+    step sc sid s p b e = perform (decideAct sc sid s p b e).1 e (decideAct sc sid s p b e).2 := by
+  simp [step, h]
+
+theorem step_dec : DecOK s (decideAct sc sid s p b e).1 (decideAct sc sid s p b e).2 :=
+  decideAct_ok sc sid s p b e _ _ rfl
+
+theorem userOf_allowed (u : Option Bytes) : userOf (Call.mk (.allowed u) none).cb = none := rfl
+
+/-- a pinned username is never replaced -/
+theorem step_user_mono (u : Bytes) (hu : s.authUser = some u) : (step sc sid s p b e).1.authUser = some u := by
+  by_cases h : s.active = true
+  · rw [step_active _ _ _ _ _ _ h, perform_authUser]
+    exact (step_dec sc sid s p b e).2.2.2.2.1 u hu
+  · simp only [Bool.not_eq_true] at h
+    rw [step_inactive _ _ _ _ _ _ h]; exact hu
+
+/-- every credential callback consulted in a step asks about the username pinned after the step -/
+theorem step_cbs_user (c : Call) (hc : c ∈ (step sc sid s p b e).2.cbs) (u : Bytes)
+    (hu : userOf c.cb = some u) : (step sc sid s p b e).1.authUser = some u := by
+  by_cases h : s.active = true
+  · rw [step_active _ _ _ _ _ _ h] at hc ⊢
+    rw [perform_authUser]
+    rcases perform_cbs _ _ _ c hc with h1 | ⟨x, h1⟩
+    · exact (step_dec sc sid s p b e).2.2.2.2.2.1 c h1 u hu
+    · rw [h1, userOf_allowed] at hu; cases hu
+  · simp only [Bool.not_eq_true] at h
+    rw [step_inactive _ _ _ _ _ _ h] at hc; simp at hc
+
+theorem step_count_lb : s.failCount + np (step sc sid s p b e).2.sent ≤ (step sc sid s p b e).1.failCount := by
+  by_cases h : s.active = true
+  · rw [step_active _ _ _ _ _ _ h]
+    have d := step_dec sc sid s p b e
+    have := perform_count_lb (decideAct sc sid s p b e).1 e _ d.2.2.2.2.2.2
+    rw [d.1] at this; exact this
+  · simp only [Bool.not_eq_true] at h
+    rw [step_inactive _ _ _ _ _ _ h]; simp
+
+theorem step_cap (hlt : s.failCount < FAIL_CAP) : s.failCount + np (step sc sid s p b e).2.sent ≤ FAIL_CAP := by
+  by_cases h : s.active = true
+  · rw [step_active _ _ _ _ _ _ h]
+    have d := step_dec sc sid s p b e
+    have := perform_cap (decideAct sc sid s p b e).1 e _ d.2.2.2.2.2.2 (by rw [d.1]; exact hlt)
+    rw [d.1] at this; exact this
+  · simp only [Bool.not_eq_true] at h
+    rw [step_inactive _ _ _ _ _ _ h]; simp; unfold FAIL_CAP at *; omega
+
+theorem step_inactive_stays (h : s.active = false) : (step sc sid s p b e).1.active = false := by
+  rw [step_inactive _ _ _ _ _ _ h]; exact h
+
+/-- invariant: an active transport has counted fewer than ten failures -/
+theorem step_inv (hinv : s.active = true → s.failCount < FAIL_CAP) :
+    (step sc sid s p b e).1.active = true → (step sc sid s p b e).1.failCount < FAIL_CAP := by
+  by_cases h : s.active = true
+  · rw [step_active _ _ _ _ _ _ h]
+    have d := step_dec sc sid s p b e
+    apply perform_inv
+    rw [d.1, d.2.1]; exact hinv
+  · simp only [Bool.not_eq_true] at h
+    rw [step_inactive _ _ _ _ _ _ h]; intro h2; rw [h] at h2; cases h2
+
+/-- the step in which the tenth failure is counted sends DISCONNECT and ends the connection -/
+theorem step_cross (hs : s.active = true) (hlt : s.failCount < FAIL_CAP)
+    (hge : FAIL_CAP ≤ (step sc sid s p b e).1.failCount) :
+    (step sc sid s p b e).1.active = false ∧ msgDiscNoMoreAuth ∈ (step sc sid s p b e).2.sent := by
+  rw [step_active _ _ _ _ _ _ hs] at hge ⊢
+  have d := step_dec sc sid s p b e
+  exact perform_cross _ e _ (by rw [d.2.1]; exact hs) (by rw [d.1]; exact hlt) hge
+end step
 
 end PV.AuthServer
